@@ -3,7 +3,9 @@ package main
 import (
 	"context"
 	"fmt"
+	"regexp"
 	"strings"
+	"sync"
 	"time"
 
 	sql2 "seata.apache.org/seata-go/pkg/datasource/sql"
@@ -36,8 +38,18 @@ func runC17Two(c *Ctx) {
 		cid := fmt.Sprintf("c17-t%d", i)
 		d := [2]bool{r.Bool(), r.Bool()}
 		order := []string{"12", "21"}[r.Intn(2)]
+		// every fourth case: phase two of the first branch arrives WHILE the second branch (on the same pooled
+		// connection) is between XA START and XA END — its business statement is held up by a slow server
+		during := i%4 == 3
 		if !c.Want(cid) {
 			continue
+		}
+		// every fourth case: the pool keeps no idle connection, database/sql closes each connection as soon as
+		// the statement is over — the prepared branch's connection must survive until phase two all the same
+		if i%4 == 1 {
+			xa.SetMaxIdleConns(0)
+		} else {
+			xa.SetMaxIdleConns(2)
 		}
 		table := w.NewTableName("xa2")
 		w.Eng.CreateTable(memdb.TableDef{Name: table, Cols: []memdb.Column{{Name: "id", Type: memdb.TBigInt}, {Name: "n", Type: memdb.TBigInt, Nullable: true}}, PK: []string{"id"}})
@@ -49,9 +61,29 @@ func runC17Two(c *Ctx) {
 		crash := safeCall(func() {
 			xid, _ = InGlobalTx(cid, func(ctx context.Context) error {
 				for k := 0; k < 2; k++ {
+					var early sync.WaitGroup
+					if during && k == 1 {
+						if brs0 := w.coord.RegisteredBranches(tmXID(ctx)); len(brs0) == 1 {
+							w.Eng.AddFault(memdb.Fault{Kind: "update", Table: table, Nth: 1, Delay: 80 * time.Millisecond})
+							early.Add(1)
+							go func() {
+								defer early.Done()
+								time.Sleep(30 * time.Millisecond)
+								safeCall(func() {
+									if d[0] {
+										w.coord.CommitBranch(w.coord.LastSession(), brs0[0], 3*time.Second)
+									} else {
+										w.coord.RollbackBranch(w.coord.LastSession(), brs0[0], 3*time.Second)
+									}
+								})
+							}()
+						}
+					}
 					if pn := safeCall(func() { _, errs[k] = xa.ExecContext(ctx, "UPDATE "+table+" SET n = 7 WHERE id = ?", k+1) }); pn != "" {
 						panic(pn)
 					}
+					early.Wait()
+					w.Eng.ClearFaults()
 				}
 				return nil
 			})
@@ -99,6 +131,7 @@ func runC17Two(c *Ctx) {
 			}
 		}
 		kk := 0
+		lastStart := ""
 		for _, e := range w.Eng.Journal() {
 			tok := map[string]string{"xa_start": "S", "xa_end": "E", "xa_prepare": "P", "xa_commit": "C", "xa_rollback": "R", "update": "x"}[e.Kind]
 			if tok == "" {
@@ -106,13 +139,17 @@ func runC17Two(c *Ctx) {
 			}
 			if tok == "S" {
 				toks = append(toks, "g")
+				lastStart = xaIDOf(e.SQL)
+			}
+			if (tok == "E" || tok == "P") && xaIDOf(e.SQL) != lastStart {
+				fail("branch_ended_under_another_identifier", fmt.Sprintf("%s after XA START '%s'", e.SQL, lastStart))
 			}
 			if e.Err != "" {
 				tok += "!"
 			}
 			toks = append(toks, tok)
 			kk++
-			if kk > nPhaseOne && (e.Kind == "xa_commit" || e.Kind == "xa_rollback") {
+			if !during && kk > nPhaseOne && (e.Kind == "xa_commit" || e.Kind == "xa_rollback") {
 				// phase two: which branch was this command sent for?
 				idx := kk - nPhaseOne - 1
 				want := 0
@@ -144,7 +181,14 @@ func runC17Two(c *Ctx) {
 			return "rollback"
 		}
 		obs := fmt.Sprintf("%s | err=%d state=%s,%s", strings.Join(toks, " "), b2i(errs[0] != nil || errs[1] != nil), st[0], st[1])
-		c.Out.Case(cid, "C17", fmt.Sprintf("xa2 %s %s %s", dec(d[0]), dec(d[1]), order), obs)
+		if during {
+			// where the early delivery lands is up to the scheduler: decided by the oracle alone; the coordinator
+			// retries a phase two that was refused while the connection was busy with the other branch
+			c.Out.Case(cid, "C17", "skip", "skip")
+			c.Out.Count("two-branches.phase-two-during-phase-one")
+		} else {
+			c.Out.Case(cid, "C17", fmt.Sprintf("xa2 %s %s %s", dec(d[0]), dec(d[1]), order), obs)
+		}
 		if crash != "" {
 			fail("crash", crash)
 		}
@@ -527,4 +571,14 @@ func runC17Protocol(c *Ctx) {
 		w.Eng.DropTable(sc.Table)
 		isolate()
 	}
+}
+
+var xaIDRe = regexp.MustCompile(`'([^']*)'`)
+
+// xaIDOf extracts the branch identifier of an XA command
+func xaIDOf(sqlText string) string {
+	if m := xaIDRe.FindStringSubmatch(sqlText); m != nil {
+		return m[1]
+	}
+	return ""
 }
